@@ -843,21 +843,37 @@ impl<'a, 'e> Translator<'a, 'e> {
             ident_replacments: &'b mut FnvMap<Symbol, Symbol>,
         }
 
+        impl<'a, 'b> FixupMatches<'a, 'b> {
+            /// Follows chains of replacements (`m5 -> m3`, `m3 -> pattern_0`)
+            fn resolve(&self, name: &Symbol) -> Symbol {
+                let mut current = name.clone();
+                for _ in 0..64 {
+                    match self.ident_replacments.get(&current) {
+                        Some(next) if *next != current => current = next.clone(),
+                        _ => break,
+                    }
+                }
+                current
+            }
+        }
+
         impl<'a, 'b> Visitor<'a, 'a> for FixupMatches<'a, 'b> {
             type Producer = SameLifetime<'a>;
 
             fn visit_expr(&mut self, expr: &'a Expr<'a>) -> Option<&'a Expr<'a>> {
                 match *expr {
                     Expr::Ident(ref id, span) => {
-                        return self.ident_replacments.get(&id.name).map(|new_name| {
-                            &*self.allocator.arena.alloc(Expr::Ident(
-                                TypedIdent {
-                                    name: new_name.clone(),
-                                    typ: id.typ.clone(),
-                                },
-                                span,
-                            ))
-                        });
+                        if !self.ident_replacments.contains_key(&id.name) {
+                            return None;
+                        }
+                        let new_name = self.resolve(&id.name);
+                        return Some(&*self.allocator.arena.alloc(Expr::Ident(
+                            TypedIdent {
+                                name: new_name,
+                                typ: id.typ.clone(),
+                            },
+                            span,
+                        )));
                     }
 
                     Expr::Match(body, alts) if alts.len() == 1 => {
@@ -869,8 +885,9 @@ impl<'a, 'e> Translator<'a, 'e> {
                             (Pattern::Ident(id), Expr::Ident(expr_id, _))
                                 if !expr_id.name.is_global() =>
                             {
-                                self.ident_replacments
-                                    .insert(id.name.clone(), expr_id.name.clone());
+                                // `x` may itself be a variable that is replaced by another
+                                let target = self.resolve(&expr_id.name);
+                                self.ident_replacments.insert(id.name.clone(), target);
 
                                 let expr = alts[0].expr;
                                 return Some(self.visit_expr(expr).unwrap_or(expr));
